@@ -26,7 +26,16 @@
 #include "identifier.c"
 #include "symbolic.c"
 #include "equality.c"
+/* count the scratch allocations of uniqueness.c (which strategy ran is visible only there) */
+#include <stdlib.h>
+static long ex_calloc_calls = 0;
+static void* ex_calloc(size_t a, size_t b) {
+    ex_calloc_calls++;
+    return calloc(a, b);
+}
+#define calloc ex_calloc
 #include "uniqueness.c"
+#undef calloc
 #include "collection.c"
 #include "tagged.c"
 #include "discard.c"
@@ -48,6 +57,111 @@ static void mask256(const char* key, const int* bits) {
 
 static void nat(const char* key, unsigned long long v) {
     printf("%s nat %llu\n", key, v);
+}
+
+/* --- behavioural extraction: independent of the names of file-local macros and static helpers --- */
+
+/* n distinct integer values with empty hash caches */
+static edn_value_t** fresh_ints(size_t n, edn_value_t** storage_out) {
+    edn_value_t* st = (edn_value_t*) calloc(n ? n : 1, sizeof(edn_value_t));
+    edn_value_t** el = (edn_value_t**) calloc(n ? n : 1, sizeof(edn_value_t*));
+    for (size_t i = 0; i < n; i++) {
+        st[i].type = EDN_TYPE_INT;
+        st[i].as.integer = (int64_t) i;
+        el[i] = &st[i];
+    }
+    *storage_out = st;
+    return el;
+}
+
+/* does the duplicate check of n elements hash its elements / allocate a table? */
+static void probe_dups(size_t n, int* hashed, int* table) {
+    edn_value_t* st;
+    edn_value_t** el = fresh_ints(n, &st);
+    long before = ex_calloc_calls;
+    (void) edn_has_duplicates(el, n);
+    *table = ex_calloc_calls != before;
+    *hashed = 0;
+    for (size_t i = 0; i < n; i++)
+        if (st[i].cached_hash != 0)
+            *hashed = 1;
+    free(el);
+    free(st);
+}
+
+/* largest element count handled by pairwise comparison (no hashing) */
+static unsigned long long probe_linear_threshold(void) {
+    unsigned long long last = 1;
+    for (size_t n = 2; n <= 100000; n++) {
+        int h, t;
+        probe_dups(n, &h, &t);
+        if (h)
+            return last;
+        last = n;
+    }
+    return 4611686018427387904ULL;
+}
+
+/* largest element count handled without the hash table */
+static unsigned long long probe_sorted_threshold(void) {
+    size_t lo = 2, hi = 1u << 22; /* invariant: no table at lo */
+    int h, t;
+    probe_dups(hi, &h, &t);
+    if (!t)
+        return 4611686018427387904ULL;
+    probe_dups(lo, &h, &t);
+    if (t)
+        return 1;
+    while (hi - lo > 1) {
+        size_t mid = lo + (hi - lo) / 2;
+        probe_dups(mid, &h, &t);
+        if (t)
+            hi = mid;
+        else
+            lo = mid;
+    }
+    return lo;
+}
+
+/* deepest nesting at which two equal nested vectors still compare equal */
+static edn_value_t* nested_vec(size_t depth) {
+    edn_value_t* v = (edn_value_t*) calloc(1, sizeof(edn_value_t));
+    v->type = EDN_TYPE_INT;
+    v->as.integer = 1;
+    for (size_t i = 0; i < depth; i++) {
+        edn_value_t* w = (edn_value_t*) calloc(1, sizeof(edn_value_t));
+        edn_value_t** arr = (edn_value_t**) calloc(1, sizeof(edn_value_t*));
+        arr[0] = v;
+        w->type = EDN_TYPE_VECTOR;
+        w->as.vector.elements = arr;
+        w->as.vector.count = 1;
+        v = w;
+    }
+    return v;
+}
+static unsigned long long probe_recursion_depth(void) {
+    /* equality gives up (false) beyond the cap: the leaf of a depth-k nesting is compared at recursion depth k */
+    unsigned long long best = 0;
+    for (size_t k = 1; k <= 3000; k++) {
+        if (edn_value_equal(nested_vec(k), nested_vec(k)))
+            best = k;
+        else
+            return best;
+    }
+    return best;
+}
+
+static int reads_as(const char* text, size_t n, edn_type_t ty, size_t end_off) {
+    edn_result_t r = edn_read(text, n);
+    int ok = 0;
+    if (r.value && r.error == EDN_OK && edn_type(r.value) == ty) {
+        size_t s = 0, e = 0;
+        edn_source_position(r.value, &s, &e);
+        ok = (e == end_off);
+    }
+    if (r.value)
+        edn_free(r.value);
+    return ok;
 }
 
 int main(void) {
@@ -101,21 +215,19 @@ int main(void) {
         mask256(key, bits);
     }
 
-    /* validate_number_delimiter on every next byte */
+    /* which byte may follow a number: `1<b>` reads as the integer 1 spanning one byte (observed through the public
+       API, so that renaming validate_number_delimiter changes nothing here) */
     for (int b = 0; b < 256; b++) {
-        char buf[2] = {(char) b, 0};
-        edn_parser_t p;
-        memset(&p, 0, sizeof p);
-        p.input = buf;
-        p.current = buf;
-        p.end = buf + 1;
-        bits[b] = validate_number_delimiter(&p, buf);
+        char buf[3] = {'1', (char) b, 0};
+        bits[b] = reads_as(buf, 2, EDN_TYPE_INT, 1);
     }
     mask256("numberTermMask", bits);
 
-    /* is_valid_single_char */
-    for (int b = 0; b < 256; b++)
-        bits[b] = is_valid_single_char((char) b);
+    /* which single byte may follow the backslash of a character literal: `\<b>` reads as a character spanning two bytes */
+    for (int b = 0; b < 256; b++) {
+        char buf[3] = {'\\', (char) b, 0};
+        bits[b] = reads_as(buf, 2, EDN_TYPE_CHARACTER, 2);
+    }
     mask256("validSingleCharMask", bits);
 
     /* scalar tails of the scanners, observed on one-byte buffers */
@@ -187,33 +299,81 @@ int main(void) {
     nat("errDuplicateElement", EDN_ERROR_DUPLICATE_ELEMENT);
 
     /* thresholds and sizes */
-    nat("linearThreshold", LINEAR_THRESHOLD);
-    nat("sortedThreshold", SORTED_THRESHOLD);
-    nat("maxRecursionDepth", MAX_RECURSION_DEPTH);
+    nat("linearThreshold", probe_linear_threshold());
+    nat("sortedThreshold", probe_sorted_threshold());
+    nat("maxRecursionDepth", probe_recursion_depth());
 #ifdef EDN_MAX_NESTING_DEPTH
     nat("maxNestingDepth", EDN_MAX_NESTING_DEPTH);
 #else
     nat("maxNestingDepth", 4611686018427387904ULL); /* no limit in this tree */
 #endif
-    nat("initialBucketCount", INITIAL_BUCKET_COUNT);
+    {
+        edn_reader_registry_t* reg = edn_reader_registry_create();
+        nat("initialBucketCount", reg ? reg->bucket_count : 0);
+        edn_reader_registry_destroy(reg);
+    }
     nat("arenaInitialSize", ARENA_INITIAL_SIZE);
     nat("arenaMediumSize", ARENA_MEDIUM_SIZE);
     nat("arenaLargeSize", ARENA_LARGE_SIZE);
     nat("sizeofValue", sizeof(edn_value_t));
     nat("sizeofArenaBlock", sizeof(arena_block_t));
     nat("sizeofPtr", sizeof(void*));
+#ifdef INITIAL_CAPACITY
     nat("newlineInitialCapacity", INITIAL_CAPACITY);
+#else
+    nat("newlineInitialCapacity", 0); /* not used by the model */
+#endif
     nat("stringFlagHasEscapes", (unsigned long long) (EDN_STRING_FLAG_HAS_ESCAPES >> 32));
     nat("defaultReaderPassthrough", EDN_DEFAULT_READER_PASSTHROUGH);
     nat("defaultReaderUnwrap", EDN_DEFAULT_READER_UNWRAP);
     nat("defaultReaderError", EDN_DEFAULT_READER_ERROR);
 
     /* powers of ten used by the floating-point fast path, as bit patterns */
+    /* growth rule of the collection builder, observed: pairs (capacity, next capacity) along the chains that
+       start at the initial capacities the harness uses (8, 9, 16, 40) */
+    printf("builderGrowth list");
+    {
+        size_t starts[] = {8, 9, 16, 40};
+        for (int si = 0; si < 4; si++) {
+#ifdef HAVE_B_BUILDER
+            edn_arena_t* ar = edn_arena_create();
+            edn_collection_builder_t bb;
+            edn_collection_builder_init(&bb, ar, starts[si]);
+            size_t last = bb.capacity;
+            for (size_t i = 0; i < 400000 && last < 100000; i++) {
+                if (!edn_collection_builder_add(&bb, NULL))
+                    break;
+                if (bb.capacity != last) {
+                    printf(" %zu %zu", last, bb.capacity);
+                    last = bb.capacity;
+                }
+            }
+            edn_arena_destroy(ar);
+#else
+            size_t c = starts[si] <= 8 ? 8 : starts[si];
+            while (c < 100000) {
+                printf(" %zu %zu", c, c + c / 2);
+                c = c + c / 2;
+            }
+#endif
+        }
+    }
+    printf("\n");
+
+    /* 1e<k> has mantissa 1, so the fast path returns exactly its table entry for 10^k */
     printf("pow10Positive list");
     for (int i = 0; i < 23; i++) {
+        char buf[16];
+        int n = snprintf(buf, sizeof buf, "1e%d", i);
+        edn_result_t r = edn_read(buf, (size_t) n);
+        double d = 0.0;
+        if (r.value)
+            edn_double_get(r.value, &d);
         uint64_t u;
-        memcpy(&u, &POWER_OF_TEN_POSITIVE[i], 8);
+        memcpy(&u, &d, 8);
         printf(" %llu", (unsigned long long) u);
+        if (r.value)
+            edn_free(r.value);
     }
     printf("\n");
     return 0;
